@@ -73,20 +73,27 @@ class DEnv:
         self.flow = flow
         self.cls = self.FF if flow else self.IB
         self.C = 2 if flow else 1
-        self.grids = [it.new(self.Grid, size=(3, 2), spacing=(k + 1, 2 * k + 1), center=(k, -k)) for k in range(N)]
-        vals = []
-        for b in range(N):
-            for c in range(self.C):
-                for y in range(2):
-                    for x in range(3):
-                        vals.append(Rat.atom(f"I{b}_{c}{y}{x}"))
-        self.data = STensor.from_flat(vals, [N, self.C, 2, 3])
+        # grids 0..N-1 belong to the batch under test, grids N..2N-1 to a second batch with other items (for cat / append)
+        self.grids = [it.new(self.Grid, size=(3, 2), spacing=(k + 1, 2 * k + 1), center=(k, -k)) for k in range(2 * N)]
+
+        def items(lo, hi):
+            vals = []
+            for b in range(lo, hi):
+                for c in range(self.C):
+                    for y in range(2):
+                        for x in range(3):
+                            vals.append(Rat.atom(f"I{b}_{c}{y}{x}"))
+            return STensor.from_flat(vals, [hi - lo, self.C, 2, 3])
+        self.data = items(0, N)
+        self.data2 = items(N, 2 * N)
         if flow:
             self.axes = it.enum(self.Axes, "WORLD")
-            self.batch = it.new(self.FF, self.data.clone(), tuple(self.grids), self.axes)
+            self.batch = it.new(self.FF, self.data.clone(), tuple(self.grids[:N]), self.axes)
+            self.other = it.new(self.FF, self.data2.clone(), tuple(self.grids[N:]), self.axes)
         else:
             self.axes = None
-            self.batch = it.new(self.IB, self.data.clone(), tuple(self.grids))
+            self.batch = it.new(self.IB, self.data.clone(), tuple(self.grids[:N]))
+            self.other = it.new(self.IB, self.data2.clone(), tuple(self.grids[N:]))
         # model Tensor.__torch_function__
         tae._EXTERNAL_FUNCS["torch.Tensor.__torch_function__"] = lambda func, types, args=(), kwargs=None: _apply_torch(func, args, kwargs)
 
@@ -158,11 +165,12 @@ class DEnv:
 
 def programs(env: DEnv) -> List[Tuple[str, Callable[[], Any], Optional[bool]]]:
     b = env.batch
-    other = env.it.new(env.cls, env.data.clone(), tuple(env.grids), *([env.axes] if env.flow else []))
+    other = env.other  # a second batch holding different items on different grids
+    same = env.it.new(env.cls, env.data.clone(), tuple(env.grids[:env.N]), *([env.axes] if env.flow else []))
     idx = STensor.from_flat([2, 0, 1], [3], symt.INT)
     P: List[Tuple[str, Callable[[], Any], Optional[bool]]] = [
         ("torch.add(batch, 1)", lambda: env.dispatch("torch.add", b, 1), True),
-        ("torch.mul(batch, batch)", lambda: env.dispatch("torch.mul", b, other), True),
+        ("torch.mul(batch, batch)", lambda: env.dispatch("torch.mul", b, same), True),
         ("torch.neg(batch)", lambda: env.dispatch("torch.neg", b), True),
         ("batch.clone()", lambda: env.dispatch("torch.Tensor.clone", b), True),
         ("batch.float()", lambda: env.dispatch("torch.Tensor.float", b), True),
@@ -172,11 +180,19 @@ def programs(env: DEnv) -> List[Tuple[str, Callable[[], Any], Optional[bool]]]:
         ("torch.narrow(batch, 3, 0, 2)", lambda: env.dispatch("torch.narrow", b, 3, 0, 2), None),
         ("torch.cat([batch, batch], 0)", lambda: env.dispatch("torch.cat", [b, other], dim=0), True),
         ("torch.cat([batch, batch]) default dim", lambda: env.dispatch("torch.cat", [b, other]), True),
+        ("torch.cat([other, batch], 0)", lambda: env.dispatch("torch.cat", [other, b], dim=0), True),
+        ("batch.append(other)", lambda: env.it.method(b, "append", other), True),
+        ("other.append(batch)", lambda: env.it.method(other, "append", b), True),
         ("torch.cat([batch, plain], 0)", lambda: env.dispatch("torch.cat", [b, env.data[0:1].clone()], dim=0), None),
         ("torch.split(batch, 1)", lambda: env.dispatch("torch.split", b, 1), True),
         ("torch.split(batch, 2)", lambda: env.dispatch("torch.split", b, 2), True),
         ("torch.split(batch, [1, 2])", lambda: env.dispatch("torch.split", b, [1, 2]), True),
         ("batch.split([2, 1])", lambda: env.dispatch("torch.Tensor.split", b, [2, 1]), True),
+        ("torch.split(batch, [1, 1, 1])", lambda: env.dispatch("torch.split", b, [1, 1, 1]), True),
+        ("torch.split(cat, [2, 1, 2, 1])", lambda: env.dispatch("torch.split", env.it.method(b, "append", other), [2, 1, 2, 1]), True),
+        ("torch.split_with_sizes(cat, [1, 3, 2])", lambda: env.dispatch("torch.split_with_sizes", env.it.method(b, "append", other), [1, 3, 2]), True),
+        ("torch.tensor_split(cat, [1, 4])", lambda: env.dispatch("torch.tensor_split", env.it.method(b, "append", other), [1, 4]), True),
+        ("torch.tensor_split(cat, 4)", lambda: env.dispatch("torch.tensor_split", env.it.method(b, "append", other), 4), True),
         ("torch.tensor_split(batch, 3)", lambda: env.dispatch("torch.tensor_split", b, 3), True),
         ("torch.tensor_split(batch, [1])", lambda: env.dispatch("torch.tensor_split", b, [1]), True),
         ("torch.chunk(batch, 3)", lambda: env.dispatch("torch.chunk", b, 3), None),
